@@ -25,6 +25,21 @@ list (also passed with make_whole=False, where the documentation says it is irre
 `sorted_bonds` only says "in sorted order" and not which order the walk needs: a bond left split because of the order
 this workload itself supplied is therefore `skip`, not a violation; with sorted_bonds=None the order is mdtraj's choice.
 
+Widening round (cases with id >= 2*10**7, `_wide_cases`; the streams above are unchanged).  Input classes added:
+molecules cut into several residues and spanning several chains / several molecules (also bond-free ions) sharing one
+multi-atom residue; bonds listed twice in the topology; only 1-3 atoms of the whole system in another image ("sparse");
+per-frame cells in which exactly ONE of the six parameters changes and cells whose CLASS changes along the trajectory;
+64-300 frame trajectories whose molecules are scattered only in the last 1-3 frames; systems of 2 500-14 000 atoms
+(300-1500 atom solutes in 800-4000 waters/ions) and unbranched 1200-3000 atom chains; 3-8 explicit anchors, every
+molecule an anchor, other_molecules=[]; sorted_bonds as int64 (refused by the kernel with ValueError: `skip`), as a
+non-contiguous int32 view and in Fortran order; coordinates that are a window of a larger buffer whose guard frames must
+stay untouched (monitor guard-frames); the call repeated on its own output (monitors again.lattice-move / again.bonds);
+histories insert_atom -> call -> delete_atom_by_index -> call, a second Topology object of identical size, an edited
+copy() followed by the original.  Not added: residues whose atoms are not contiguous in index (Topology.atoms walks
+chains -> residues -> atoms and the whole library identifies that order with the index order: outside mdtraj's data
+model), anchor molecules given as lists instead of sets (documented: "list of atom sets"), trajectories without a unit
+cell (outside the quantifier; refused with ValueError).
+
 Tolerance.  Everything mdtraj does here is float32: a move is x - (n_c c + n_b b + n_a a) (three rounded products, two
 rounded sums, one rounded subtraction), image_molecules adds one common translation and one more lattice move per
 molecule.  With M = max |coordinate| before/after, Lmax the longest cell vector and |n| <= 2K+3 cells spanned by the
@@ -86,7 +101,8 @@ RULE = ("cases = (entry point, options, system class, relabelling, scatter mode,
 WORKERS = {"quick": 8, "thorough": 16}
 BUDGET = {"quick": 60, "thorough": 900}
 NCASES = {"quick": 12000, "thorough": 100000}
-FLOORS = {"quick": {"whole.lattice-move": 60000, "whole.bonds": 45000, "image.lattice-move": 90000, "image.bonds": 45000,
+FLOORS = {"quick": {"guard-frames": 300, "again.lattice-move": 20000, "again.bonds": 10000, "history.bonds": 800,
+                    "whole.lattice-move": 60000, "whole.bonds": 45000, "image.lattice-move": 90000, "image.bonds": 45000,
                     "image.rigid-non-anchor": 4500, "consequence.distance": 70000, "consequence.angle": 30000,
                     "consequence.dihedral": 25000, "hook.compute_distances": 70000, "hook.compute_angles": 30000,
                     "hook.compute_dihedrals": 25000, "untouched.cell-time": 1200, "inplace=False.input-untouched": 1200,
@@ -155,6 +171,68 @@ def _gen_cases(tier, seed):
         yield dict(i=10 ** 7 + j, kind="topology-edit-history", seed=common.case_seed(seed, "C11h", j), cell=common.CELL_KINDS[j % len(common.CELL_KINDS)],
                    order=str(rng.choice(["OHH", "HHO", "HOH"])), n_waters=int(rng.integers(2, 9)), op=str(rng.choice(["whole", "image"])),
                    edit=str(rng.choice(["insert_front", "insert_middle", "insert_end+bond"])), spread=int(rng.choice([1, 2, 5])))
+    yield from _wide_cases(tier, seed)
+
+
+def _wide_cases(tier, seed):
+    """Input classes added by the widening round (ids >= 2*10**7; the streams above are unchanged)."""
+    quick = tier == "quick"
+    base = 2 * 10 ** 7
+    # (a) the general stream again, with the option/input dimensions the first stream never varies
+    for j in range(1500 if quick else 12000):
+        rng = common.rng_for("C11wide", seed, j)
+        op = "whole" if j % 5 < 2 else "image"
+        system = SYSTEMS[(j // 5) % len(SYSTEMS)] if rng.random() < 0.95 else "ions"
+        guess = rng.random() < (0.5 if system == "solvated" else 0.08)
+        relabel = str(rng.choice(c11_mols.RELABEL))
+        gperm = bool(rng.random() < 0.2)
+        resmode = str(rng.choice(["molecule", "split", "split", "merged"]))
+        if system == "ions":
+            resmode = "molecule"  # several bond-free atoms in one residue: find_molecules refuses (documented)
+        yield dict(i=base + j, seed=common.case_seed(seed, "C11w", j), op=op, system=system, relabel=relabel, global_perm=gperm,
+                   scatter=str(rng.choice(["atom", "sparse", "sparse", "wrapped", "molecule", "none"])),
+                   spread=int(rng.choice(SPREADS)), cell=common.CELL_KINDS[(j // 3) % len(common.CELL_KINDS)],
+                   perframe=[False, True, "one-field", "one-field", "class-change", "class-change"][int(rng.integers(6))],
+                   n_frames=int(rng.integers(1, 7)), inplace=bool(rng.random() < 0.5), make_whole=bool(rng.random() < 0.65),
+                   anchors="guess" if guess else str(rng.choice(["explicit", "many", "all"])),
+                   others=str(rng.choice(["default", "all", "subset", "empty"])),
+                   sorted_bonds=str(rng.choice(["none", "none", "topology", "bfs", "bfs"])),
+                   sb_container=str(rng.choice(["int32", "int64", "strided", "fortran"])),
+                   resmode=resmode, dup_bonds=bool(rng.random() < 0.3), view=bool(rng.random() < 0.5), again=bool(rng.random() < 0.5),
+                   positional=bool(rng.random() < 0.3),
+                   wide=bool(not quick and rng.random() < 0.3), widened=True)
+    # (b) long trajectories; the first frames are whole, molecules are scattered only from frame `late` on
+    for j in range(24 if quick else 300):
+        rng = common.rng_for("C11long", seed, j)
+        nf = int(rng.choice([64, 100, 101, 128, 257, 300]))
+        yield dict(i=base + 10 ** 5 + j, seed=common.case_seed(seed, "C11l", j), op=["whole", "image"][j % 2],
+                   system=str(rng.choice(["few", "solvated"])), relabel=str(rng.choice(c11_mols.RELABEL)),
+                   global_perm=bool(rng.random() < 0.3), scatter=str(rng.choice(["atom", "sparse", "wrapped"])),
+                   spread=int(rng.choice([1, 2, 3])), cell=common.CELL_KINDS[j % len(common.CELL_KINDS)],
+                   perframe=[False, True, "one-field", "class-change"][int(rng.integers(4))], n_frames=nf,
+                   late=int(nf - rng.integers(1, 4)) if rng.random() < 0.7 else 0, inplace=bool(rng.random() < 0.5),
+                   make_whole=bool(rng.random() < 0.7), anchors=str(rng.choice(["explicit", "guess"])),
+                   others="default", sorted_bonds="none", resmode=str(rng.choice(["molecule", "split"])),
+                   view=bool(rng.random() < 0.5), widened=True)
+    # (c) thousands of atoms (protein-sized solutes in 800-4000 solvent molecules) and unbranched 1200-3000 atom chains
+    for j in range(16 if quick else 128):
+        rng = common.rng_for("C11large", seed, j)
+        system = ["large", "polymer"][j % 2]
+        yield dict(i=base + 2 * 10 ** 5 + j, seed=common.case_seed(seed, "C11L", j), op=["whole", "image", "image"][j % 3],
+                   system=system, relabel=str(rng.choice(c11_mols.RELABEL)), global_perm=bool(rng.random() < 0.25),
+                   scatter=str(rng.choice(["atom", "sparse", "wrapped"])), spread=int(rng.choice([1, 2, 10])),
+                   cell=common.CELL_KINDS[(j // 2) % len(common.CELL_KINDS)], perframe=bool(rng.random() < 0.5),
+                   n_frames=int(rng.integers(1, 3)), inplace=bool(rng.random() < 0.5), make_whole=bool(rng.random() < 0.75),
+                   anchors=str(rng.choice(["explicit", "guess"])) if system == "large" else "explicit", others="default",
+                   sorted_bonds="none", resmode=str(rng.choice(["molecule", "split"])), widened=True)
+    # (d) more histories on one Topology object / between two Topology objects
+    for j in range(40 if quick else 600):
+        rng = common.rng_for("C11hist2", seed, j)
+        yield dict(i=base + 3 * 10 ** 5 + j, kind="topology-edit-history", seed=common.case_seed(seed, "C11h2", j),
+                   cell=common.CELL_KINDS[j % len(common.CELL_KINDS)], order=str(rng.choice(["OHH", "HHO", "HOH"])),
+                   n_waters=int(rng.integers(2, 9)), op=str(rng.choice(["whole", "image"])),
+                   edit=["insert_then_delete", "second-topology-same-size", "copy-then-edit-copy"][j % 3],
+                   spread=int(rng.choice([1, 2, 5])))
 
 
 # ------------------------------------------------------------------------------------------------------------ helpers
@@ -305,6 +383,38 @@ def _run_history(case, ctx):
     t1 = scattered(top)
     if not judge(t1, f"{case['op']}:first-call"):
         return
+    if case["edit"] == "second-topology-same-size":
+        # widened class: ANOTHER Topology object with the same numbers of chains, residues, atoms and bonds but another
+        # atom order inside the waters (nothing remembered from the first call may be applied to it)
+        other = {"OHH": ["H1", "H2", "O"], "HHO": ["H1", "O", "H2"], "HOH": ["O", "H1", "H2"]}[case["order"]]
+        top2 = md.Topology()
+        ch2 = top2.add_chain()
+        for w in range(nw):
+            res = top2.add_residue("HOH", ch2)
+            at = {n: top2.add_atom(n, E.oxygen if n == "O" else E.hydrogen, res) for n in other}
+            top2.add_bond(at["O"], at["H1"])
+            top2.add_bond(at["O"], at["H2"])
+        judge(scattered(top2), f"{case['op']}:second-call-on-another-topology-of-same-size")
+        judge(scattered(top), f"{case['op']}:third-call-on-the-first-topology-again")
+        return
+    if case["edit"] == "copy-then-edit-copy":
+        # widened class: a copy of a Topology that has been used, edited in place, then the original again
+        top2 = top.copy()
+        for res in list(top2.residues):
+            top2.insert_atom("MW", E.virtual_site, res, index=res.atom(0).index, rindex=0)
+        judge(scattered(top2), f"{case['op']}:second-call-on-edited-copy")
+        judge(scattered(top), f"{case['op']}:third-call-on-the-original-again")
+        return
+    if case["edit"] == "insert_then_delete":
+        # widened class: insert_atom, a call, then delete_atom_by_index (both renumber the atoms in place), a call
+        for res in list(top.residues):
+            top.insert_atom("MW", E.virtual_site, res, index=res.atom(0).index, rindex=0)
+        if not judge(scattered(top), f"{case['op']}:second-call-after-insert_front"):
+            return
+        for idx_ in sorted((a.index for a in top.atoms if a.name == "MW"), reverse=True):
+            top.delete_atom_by_index(idx_)
+        judge(scattered(top), f"{case['op']}:third-call-after-delete_atom_by_index")
+        return
     # in-place edit of the same Topology object
     for res in list(top.residues):
         first = res.atom(0).index
@@ -325,13 +435,24 @@ def run_case(case, ctx):
     if case.get("kind") == "topology-edit-history":
         return _run_history(case, ctx)
     s = c11_mols.build(case)
+    guard = None
+    if case.get("view"):
+        # widened class: the trajectory's coordinates are a window of a larger buffer (as when a caller hands over part
+        # of an array); the frames in front of and behind the window must never be written
+        g = np.empty((s.traj.n_frames + 2,) + s.traj.xyz.shape[1:], dtype=np.float32)
+        g[0], g[-1] = np.float32(12345.678), np.float32(-9876.5)
+        g[1:-1] = s.traj.xyz
+        tv = md.Trajectory(g[1:-1], s.traj.topology, time=s.times.copy(), unitcell_lengths=s.L.copy(), unitcell_angles=s.A.copy())
+        if np.shares_memory(tv.xyz, g):
+            s.traj, guard = tv, g
+        ctx.observe("xyz is a window of a larger buffer", bool(guard is not None))
     t, B, rng = s.traj, s.B, s.rng
     nf, na = t.n_frames, t.n_atoms
     op, K = case["op"], case["spread"]
     inplace = case["inplace"]
     mkw = case["make_whole"] if op == "image" else True
     ctx.observe("op", op)
-    ctx.observe("cell", case["cell"] + ("/per-frame" if case["perframe"] else ""))
+    ctx.observe("cell", case["cell"] + ("/per-frame" + ("" if case["perframe"] is True else ":" + str(case["perframe"])) if case["perframe"] else ""))
     ctx.observe("system", case["system"].split(":")[0])
     ctx.observe("relabel", case["relabel"] + ("+global" if case.get("global_perm") and case["relabel"] == "random" else ""))
     ctx.observe("scatter", case["scatter"])
@@ -340,6 +461,17 @@ def run_case(case, ctx):
     for k in s.kinds:
         ctx.observe("molecule", k.split(":")[0])
     ctx.observe("inplace", inplace)
+    if case.get("widened"):
+        ctx.observe("arguments passed", "positionally" if case.get("positional") else "by keyword")
+        ctx.observe("residues", case.get("resmode", "molecule") + ("" if not (case.get("global_perm") and case["relabel"] == "random") else " (interleaved: one residue per atom)"))
+        ctx.observe("duplicate bonds in the topology", bool(case.get("dup_bonds")))
+        ctx.observe("scatter starts at", "frame 0" if not case.get("late") else "a late frame")
+        ctx.observe("n_atoms", "<100" if na < 100 else ("<1000" if na < 1000 else (">=1000" if na < 5000 else ">=5000")))
+        ctx.observe("n_chains", min(t.topology.n_chains, 5))
+        ctx.observe("molecules spanning several residues / chains",
+                    f"{sum(1 for m in s.mols if len(set(t.topology.atom(int(i)).residue.index for i in m)) > 1) > 0}/"
+                    f"{sum(1 for m in s.mols if len(set(t.topology.atom(int(i)).residue.chain.index for i in m)) > 1) > 0}"
+                    if na < 1000 else "not counted")
 
     top = t.topology
     atoms = list(top.atoms)
@@ -354,7 +486,10 @@ def run_case(case, ctx):
                     return
 
     # ---- direct monitor of find_molecules
-    if len(s.bonds) or all(len(m) == 1 for m in s.mols):
+    bondfree_multi = bool(len(s.bonds) == 0 and any(r.n_atoms > 1 for r in top.residues))
+    if bondfree_multi:
+        ctx.skip("find_molecules.partition", "bond-free topology with multi-atom residues: find_molecules refuses (documented)")
+    elif len(s.bonds) or all(len(m) == 1 for m in s.mols):
         got = sorted(tuple(sorted(a.index for a in mol)) for mol in top.find_molecules())
         want = sorted(tuple(int(x) for x in m) for m in s.mols)
         ctx.check(got == want, "find_molecules.partition", "find_molecules:partition-differs-from-bond-graph-components",
@@ -373,7 +508,19 @@ def run_case(case, ctx):
     else:
         sb = None
         order = order_default
+    sbc = case.get("sb_container", "int32") if sb is not None else "int32"
+    if sbc == "int64":
+        sb = np.asarray(sb, dtype=np.int64)
+    elif sbc == "strided":  # every second column of a wider int32 array: a non-contiguous view
+        wide_ = np.zeros((len(sb), 4), dtype=np.int32)
+        wide_[:, ::2] = sb
+        wide_[:, 1::2] = -7
+        sb = wide_[:, ::2]
+    elif sbc == "fortran":
+        sb = np.asfortranarray(np.asarray(sb, dtype=np.int32))
     ctx.observe("sorted_bonds", sbmode + ("" if mkw else " (make_whole=False)"))
+    if sb is not None:
+        ctx.observe("sorted_bonds container", sbc)
     base = "make_molecules_whole" if op == "whole" else "image_molecules"  # object-level guarantees are keyed by this
     entry = "make_molecules_whole" if op == "whole" else f"image_molecules[make_whole={mkw}]"
     if sbmode == "bfs" and mkw:
@@ -385,8 +532,12 @@ def run_case(case, ctx):
     if op == "image":
         kwargs["make_whole"] = mkw
         nm = len(s.mols)
-        if case["anchors"] == "explicit":
+        if case["anchors"] in ("explicit", "many", "all"):
             k = int(rng.integers(1, min(3, nm) + 1))
+            if case["anchors"] == "many":  # widened: up to 8 anchors (the nearest-anchor clustering loop runs k-1 times)
+                k = int(rng.integers(min(3, nm), min(8, nm) + 1))
+            elif case["anchors"] == "all":  # widened: every molecule is an anchor, nothing is left to wrap
+                k = nm
             amols = [int(x) for x in rng.permutation(nm)[:k]]
             kwargs["anchor_molecules"] = [set(atoms[i] for i in s.mols[m]) for m in amols]
             anchors_idx = [s.mols[m] for m in amols]
@@ -396,7 +547,10 @@ def run_case(case, ctx):
             elif case["others"] == "subset":
                 keep = [m for m in rest if rng.random() < 0.6]
                 kwargs["other_molecules"] = [set(atoms[i] for i in s.mols[m]) for m in keep]
-            ctx.observe("anchors", f"explicit/others={case['others']}")
+            elif case["others"] == "empty":  # widened: an explicit empty list (nothing but the anchors is touched)
+                kwargs["other_molecules"] = []
+            ctx.observe("anchors", f"{case['anchors']}/others={case['others']}")
+            ctx.observe("explicit_anchor_count", min(k, 8))
         else:
             try:
                 guessed = top.guess_anchor_molecules()  # observation of which molecules the heuristic picks
@@ -418,6 +572,12 @@ def run_case(case, ctx):
     before = _consequences(md, t, samp)
 
     def call(tr, inpl):
+        if case.get("positional"):
+            # widened class: every argument passed by position, in the documented order
+            if op == "whole":
+                return tr.make_molecules_whole(inpl, kwargs["sorted_bonds"])
+            return tr.image_molecules(inpl, kwargs.get("anchor_molecules"), kwargs.get("other_molecules"), kwargs["sorted_bonds"],
+                                      kwargs["make_whole"])
         if op == "whole":
             return tr.make_molecules_whole(inplace=inpl, **kwargs)
         return tr.image_molecules(inplace=inpl, **kwargs)
@@ -430,17 +590,31 @@ def run_case(case, ctx):
     try:
         res = call(t, inplace)
     except ValueError as e:
+        if sbc == "int64" and "dtype mismatch" in str(e):
+            ctx.skip("call", "sorted_bonds of dtype int64 is refused with ValueError (the kernel takes int32): refusal, not a wrong result")
+            if guard is not None:
+                ctx.check(bool((guard[0] == np.float32(12345.678)).all() and (guard[-1] == np.float32(-9876.5)).all()
+                               and np.array_equal(t.xyz, old)), "guard-frames", f"{base}:refused-call-modified-coordinates",
+                          "the refused call changed coordinates")
+            return
         if op == "image" and case["anchors"] == "guess" and "Could not find any anchor" in str(e):
             ctx.skip("call", "guess_anchor_molecules found no anchor (documented refusal of the heuristic)")
             return
         if op == "image" and case["anchors"] == "guess" and "does not include bonds" in str(e):
             ctx.skip("call", "find_molecules refuses a topology without bonds (documented)")
             return
+        if bondfree_multi and "does not include bonds" in str(e):
+            ctx.skip("call", "find_molecules refuses a bond-free topology with multi-atom residues (documented)")
+            return
         nob = ":topology-without-bonds" if len(s.bonds) == 0 else ""
         ctx.violation("call", f"{entry}{nob}:raises:{type(e).__name__}", f"{entry} raised {type(e).__name__}: {e}",
                       n_bonds=len(s.bonds), n_atoms=na)
         return
     ctx.ok("call")
+    if guard is not None:
+        ctx.check(bool((guard[0] == np.float32(12345.678)).all() and (guard[-1] == np.float32(-9876.5)).all()), "guard-frames",
+                  f"{base}:inplace={inplace}:writes-outside-the-trajectory's-own-frames",
+                  "frames of the enclosing buffer in front of / behind the trajectory's window were modified")
 
     # ---- object-level guarantees
     if inplace:
@@ -574,6 +748,46 @@ def run_case(case, ctx):
         r2 = call_with(_clone(md, s, old), kw2)
         # not a verdict: the statement does not say the two must coincide (a smarter default may differ)
         ctx.observe("explicit sorted-by-first-atom list vs default", "same result" if np.array_equal(r2.xyz, new) else "different result")
+    if case.get("again"):
+        # widened class: the same call once more on the OUTPUT of the first call (state carried on the object; input
+        # that is already whole / already imaged): again only lattice moves (+ one common translation), bonds stay whole
+        res2 = call(res, inplace)
+        again = res2.xyz.astype(np.float64)
+        n_ok = n_okb = 0
+        for f in range(nf):
+            tau2 = _tau(new[f], res2.xyz[f], B[f], K)
+            D = again[f] - new64[f]
+            if op == "image":
+                D = D - D[0]
+            nn = np.round(D @ np.linalg.inv(B[f]))
+            resid = np.linalg.norm(D - nn @ B[f], axis=1)
+            badm = resid > tau2 * (2 if op == "image" else 1)
+            if badm.any():
+                j = int(np.argmax(resid))
+                ctx.violation("again.lattice-move", f"{entry}:second-call-on-own-output:move-not-a-lattice-vector",
+                              f"{entry} applied to its own output: move of atom {j} is {resid[j]:.4g} nm away from the lattice (tau {tau2:.2g})",
+                              frame=f, atom=j)
+            n_ok += int((~badm).sum())
+            if mkw and len(s.bonds) and 0.16 * wmin[f] > 8 * max(tau2, taus[f]):
+                bi_, bj_ = s.bonds[:, 0], s.bonds[:, 1]
+                _, mic1 = _round_image((new64[f, bj_] - new64[f, bi_])[None], B[f][None])
+                whole1 = np.linalg.norm(new64[f, bj_] - new64[f, bi_], axis=1) - mic1[0] <= 2 * taus[f]
+                raw2 = again[f, bj_] - again[f, bi_]
+                _, mic2 = _round_image(raw2[None], B[f][None])
+                split2 = whole1 & (np.linalg.norm(raw2, axis=1) - mic2[0] > 2 * tau2)
+                if split2.any():
+                    j = int(np.argmax(split2))
+                    ctx.violation("again.bonds", f"{entry}:second-call-on-own-output:splits-a-whole-bond",
+                                  f"{entry} applied to its own output: bond {int(bi_[j])}-{int(bj_[j])}, whole after the first call, is "
+                                  f"split after the second", frame=f)
+                n_okb += int((whole1 & ~split2).sum())
+        ctx.ok("again.lattice-move", n_ok)
+        if n_okb:
+            ctx.ok("again.bonds", n_okb)
+        if not inplace:
+            ctx.check(np.array_equal(res.xyz, new), "inplace=False.input-untouched", f"{base}:inplace=False:input-modified",
+                      "inplace=False modified its input (the output of the first call)")
+        res = res2 if inplace else res
     if not inplace:
         # mutate the result: the input must not notice
         res.xyz[...] += 1.0
